@@ -157,6 +157,11 @@ func (fr *Frame) applyContract(st *State, call ssa.CallInstruction, fn *ssa.Func
 	}
 	vc.reportEnvErrors(env)
 	vc.recordCallSyms(ct.Key, sig, res)
+	for i := 0; i < sig.Results().Len(); i++ {
+		if isErrorType(sig.Results().At(i).Type()) && !ct.IsExtern {
+			vc.contractErrs[res[i]] = true
+		}
+	}
 	return res
 }
 
@@ -227,6 +232,7 @@ func (fr *Frame) applyIfaceContract(st *State, call ssa.CallInstruction, m *type
 func (fr *Frame) applyModifies(st, old *State, call ssa.CallInstruction, fn *ssa.Function, sig *types.Signature, ct *FuncContract, args []Term) {
 	vc := fr.vc
 	if ct.Pure {
+		vc.bumpClock(st) // the callee may allocate (fresh results)
 		return
 	}
 	clk := vc.bumpClock(st)
@@ -747,7 +753,43 @@ func (vc *VC) tyIDByName(k string) Term {
 }
 
 // finalizeTypes emits implements-facts for the interfaces used in type assertions.
+func isModuleType(t types.Type) bool {
+	if t == nil {
+		return false
+	}
+	t = types.Unalias(t)
+	if p, ok := t.(*types.Pointer); ok {
+		t = types.Unalias(p.Elem())
+	}
+	n, ok := t.(*types.Named)
+	return ok && n.Obj().Pkg() != nil && strings.HasPrefix(n.Obj().Pkg().Path(), modPath)
+}
+
+// notModuleErr: the error value e was produced outside the module (stdlib / third party), so its
+// dynamic type is not one of the module's own error types.
+func (vc *VC) notModuleErr(e Term) Term {
+	vc.sc.DeclFun("isModTy", []string{"Int"}, "Bool")
+	vc.usesModTy = true
+	return Or(Eq(e, "nilval"), Not(sx("isModTy", sx("typeOf", e))))
+}
+
 func (vc *VC) finalizeTypes() {
+	if vc.usesModTy {
+		for id, t := range vc.tyTypes {
+			if isModuleType(t) {
+				vc.sc.Axiom(sx("isModTy", fmt.Sprint(id)))
+			} else {
+				vc.sc.Axiom(Not(sx("isModTy", fmt.Sprint(id))))
+			}
+		}
+		for k, id := range vc.tyIDs {
+			if _, ok := vc.tyTypes[id]; !ok {
+				_ = k
+				vc.sc.Axiom(Not(sx("isModTy", fmt.Sprint(id))))
+			}
+		}
+		vc.sc.Axiom(Not(sx("isModTy", "0")))
+	}
 	for name, it := range vc.ifaceUsed {
 		iface, ok := it.Underlying().(*types.Interface)
 		if !ok {
